@@ -143,3 +143,8 @@ Example C15_example_raises :
   fit_raised rot_perm [] 3 0 2 2 false = true /\ fit_trace rot_perm [] 3 0 2 2 false = [] /\
   fit_raised rot_perm [] 3 1 0 2 false = true /\ fit_trace rot_perm [] 3 1 0 2 false = [].
 Proof. vm_compute. repeat split; reflexivity. Qed.
+(* The hypothesis on [perm] does not by itself force alignment: under two different keys the same
+   array is permuted differently, so C15_rows_aligned rests on x and condition sharing one key. *)
+Example C15_example_keys_matter :
+  permutation rot_perm [0;1] [0;1;2;3;4] = [2;1;0;4;3] /\ permutation rot_perm [0;2] [0;1;2;3;4] = [3;2;1;0;4].
+Proof. vm_compute. split; reflexivity. Qed.
